@@ -209,6 +209,27 @@ pub fn run(opts: &Opts) -> i32 {
     lists.push((0..k).map(|_| random_pattern(&mut r2, &rel)).collect());
   }
 
+  // related lists: patterns that repeat, subsume, prefix or glob-match one another (a list-level "tidy-up" --
+  // dropping duplicates, dropping a pattern that an earlier glob matches, sorting -- changes only these)
+  let mut r3 = rng.fork(3);
+  let names = ["Dell Mouse", "Dell *", "Logitech K120", "AT Translated Set 2 keyboard", "Mouse*", "*Switch*", "gpio-keys", "a", "ab", "x y", "50%", "$HOME"];
+  let n_related = if thorough { 8000 } else { 800 };
+  for _ in 0..n_related {
+    let base: String = if r3.chance(3, 4) { r3.pick(&names).to_string() } else { random_pattern(&mut r3, &rel) };
+    let chars: Vec<char> = base.chars().collect();
+    let mut variants: Vec<String> = vec![base.clone(), base.clone(), "*".to_string(), "?".repeat(chars.len().max(1)), format!("{}*", base), format!("*{}", base), base.to_uppercase()];
+    if !chars.is_empty() {
+      let i = r3.below(chars.len());
+      let mut q = chars.clone(); q[i] = '?'; variants.push(q.iter().collect());
+      let mut w = chars.clone(); w[i] = '*'; variants.push(w.iter().collect());
+      variants.push(chars[..i].iter().collect::<String>() + "*");
+      variants.push(chars[i..].iter().collect());
+    }
+    variants.retain(|v| !v.is_empty());
+    let k = r3.range(2, 5);
+    lists.push((0..k).map(|_| r3.pick(&variants).clone()).collect());
+  }
+
   let mut cases: Vec<Case> = Vec::with_capacity(lists.len());
   let mut svc = 0u64;
   let mut c17 = 0u64;
